@@ -176,6 +176,13 @@ def ordinary_over_exotic(R, B, rng):
                     f'hash / per-level hashes of an ordinary cell over pruned branches with masks {masks} ({route}) differ from the specification', W)
             st2, c2 = mon.call(lambda: B.Cell.one_from_boc(c.to_boc()))
             R.check(st2 == 'ok' and c2.hash == r.hash and c2 == c and hash(c2) == hash(c), 'hash-ordinary-over-exotic-roundtrip', 'round trip of an ordinary cell over exotic children changes its hash / equality', W)
+            # "the explicitly recomputed representation hash agrees with the cached one" - for these ordinary cells too, and for an ordinary cell above them
+            st3, rh = mon.call(c.calculate_representation_hash)
+            R.check(st3 == 'ok' and rh == r.hash, 'repr-hash-differs-ordinary-over-exotic', f'calculate_representation_hash() of an ordinary cell over pruned branches with masks {masks} ({route}) is not its hash', W)
+            st3, rh2 = mon.call(lambda: B.Builder().store_uint(5, 3).store_ref(c).end_cell())
+            R.check(st3 == 'ok' and mon.call(rh2.calculate_representation_hash) == ('ok', rh2.hash) and rh2.hash == rc.RC('101', (r,)).hash, 'repr-hash-differs-ordinary-over-exotic',
+                    'calculate_representation_hash() of an ordinary cell two levels above pruned branches is not its hash', W)
+            R.count('repr_hash_evals_over_exotic')
         R.case(mon.fp('ooe', r.hash))
     for kid in (rc.make_library(gen.rand_hash(rng)), rc.make_merkle_proof(rc.RC('101', (rc.RC('1'),))), rc.make_merkle_update(rc.RC('1'), rc.RC('0'))):
         r = rc.RC('11', (kid, rc.RC('0')))
